@@ -80,6 +80,10 @@ func runC12(ctx *Ctx) *Report {
 		}
 		docs = append(docs, d)
 	}
+	// blank rows made of Unicode white space (strings.TrimSpace semantics), alone and around items
+	for _, ws := range []string{"\u3000", "\u00a0", "\u0085", "\u2028", "\u2029", "\u1680", "\u2003", "\u202f", "\u205f", "\v", "\f", " \u3000\t"} {
+		docs = append(docs, []byte(ws), []byte(ws+"\n"), []byte(ws+"\n"+ws+"\n"), []byte(ws+"\n- a\n"+ws+"\n  - b\n"+ws), []byte("- a\n"+ws+"\n"))
+	}
 	// over-long lines around bufio's limit
 	for _, n := range []int{65533, 65534, 65535, 65536, 70000} {
 		docs = append(docs, []byte("- "+strings.Repeat("x", n-2)+"\n- b\n"))
